@@ -288,3 +288,6 @@ def run_case(cfg):
           "state": repr(sorted(cfg.items(), key=lambda kv: kv[0])), "digest": common.digest(*digests),
           "violations": viol, "traces": len(common.PATTERNS),
           "sample": {"cfg": cfg, "shape": list(shape), "patterns": common.PATTERNS}}
+
+# (appended: sub-lattices added after the seeded waves; kept out of the original RULE text for readability)
+RULE = RULE + "; plus: two 'ladder' patterns (per-channel magnitudes 2^e, |e| in {12..15, 26, 30}); exponent bounds that do not bind; histories over the process-wide image data format (quantizer used under channels_first; and after switching back)"
